@@ -92,7 +92,7 @@ Record rloanrec := { rl_sv : N; rl_idx : option N; rl_ch : N; rl_msg : rspmsg; r
 Record state := {
   s_next : N; s_hid : N;
   s_cslot : list (option N); s_sslot : list (option N);
-  s_creg : list (option N); s_cfree : list N; s_sreg : list N;
+  s_creg : list (option N); s_sreg : list N;
   s_clients : list client; s_servers : list server; s_conns : list conn;
   s_loans : list loanrec; s_pends : list pendrec; s_acts : list actrec;
   s_resps : list resprec; s_rloans : list rloanrec;
@@ -103,7 +103,7 @@ Record state := {
 
 Definition init (g : cfg) : state :=
   {| s_next := 0; s_hid := 0; s_cslot := [None; None]; s_sslot := [None; None];
-     s_creg := repeat None (N.to_nat (MC g)); s_cfree := map N.of_nat (seq 0 (N.to_nat (MC g))); s_sreg := [];
+     s_creg := repeat None (N.to_nat (MC g)); s_sreg := [];
      s_clients := []; s_servers := []; s_conns := [];
      s_loans := []; s_pends := []; s_acts := []; s_resps := []; s_rloans := [];
      s_rlog := []; s_slog := []; s_idxlog := [] |}.
@@ -111,32 +111,32 @@ Definition init (g : cfg) : state :=
 (* --- record updates ----------------------------------------------------------------------- *)
 Definition st_conns (s : state) (c : list conn) : state :=
   {| s_next := s_next s; s_hid := s_hid s; s_cslot := s_cslot s; s_sslot := s_sslot s; s_creg := s_creg s;
-     s_cfree := s_cfree s; s_sreg := s_sreg s; s_clients := s_clients s; s_servers := s_servers s; s_conns := c;
+     s_sreg := s_sreg s; s_clients := s_clients s; s_servers := s_servers s; s_conns := c;
      s_loans := s_loans s; s_pends := s_pends s; s_acts := s_acts s; s_resps := s_resps s; s_rloans := s_rloans s;
      s_rlog := s_rlog s; s_slog := s_slog s; s_idxlog := s_idxlog s |}.
 Definition st_clients (s : state) (c : list client) : state :=
   {| s_next := s_next s; s_hid := s_hid s; s_cslot := s_cslot s; s_sslot := s_sslot s; s_creg := s_creg s;
-     s_cfree := s_cfree s; s_sreg := s_sreg s; s_clients := c; s_servers := s_servers s; s_conns := s_conns s;
+     s_sreg := s_sreg s; s_clients := c; s_servers := s_servers s; s_conns := s_conns s;
      s_loans := s_loans s; s_pends := s_pends s; s_acts := s_acts s; s_resps := s_resps s; s_rloans := s_rloans s;
      s_rlog := s_rlog s; s_slog := s_slog s; s_idxlog := s_idxlog s |}.
 Definition st_servers (s : state) (c : list server) : state :=
   {| s_next := s_next s; s_hid := s_hid s; s_cslot := s_cslot s; s_sslot := s_sslot s; s_creg := s_creg s;
-     s_cfree := s_cfree s; s_sreg := s_sreg s; s_clients := s_clients s; s_servers := c; s_conns := s_conns s;
+     s_sreg := s_sreg s; s_clients := s_clients s; s_servers := c; s_conns := s_conns s;
      s_loans := s_loans s; s_pends := s_pends s; s_acts := s_acts s; s_resps := s_resps s; s_rloans := s_rloans s;
      s_rlog := s_rlog s; s_slog := s_slog s; s_idxlog := s_idxlog s |}.
 Definition st_next (s : state) (n : N) : state :=
   {| s_next := n; s_hid := s_hid s; s_cslot := s_cslot s; s_sslot := s_sslot s; s_creg := s_creg s;
-     s_cfree := s_cfree s; s_sreg := s_sreg s; s_clients := s_clients s; s_servers := s_servers s; s_conns := s_conns s;
+     s_sreg := s_sreg s; s_clients := s_clients s; s_servers := s_servers s; s_conns := s_conns s;
      s_loans := s_loans s; s_pends := s_pends s; s_acts := s_acts s; s_resps := s_resps s; s_rloans := s_rloans s;
      s_rlog := s_rlog s; s_slog := s_slog s; s_idxlog := s_idxlog s |}.
 Definition st_hid (s : state) (n : N) : state :=
   {| s_next := s_next s; s_hid := n; s_cslot := s_cslot s; s_sslot := s_sslot s; s_creg := s_creg s;
-     s_cfree := s_cfree s; s_sreg := s_sreg s; s_clients := s_clients s; s_servers := s_servers s; s_conns := s_conns s;
+     s_sreg := s_sreg s; s_clients := s_clients s; s_servers := s_servers s; s_conns := s_conns s;
      s_loans := s_loans s; s_pends := s_pends s; s_acts := s_acts s; s_resps := s_resps s; s_rloans := s_rloans s;
      s_rlog := s_rlog s; s_slog := s_slog s; s_idxlog := s_idxlog s |}.
 Definition st_objs (s : state) (lo : list loanrec) (pe : list pendrec) (ac : list actrec) (re : list resprec) (rl : list rloanrec) : state :=
   {| s_next := s_next s; s_hid := s_hid s; s_cslot := s_cslot s; s_sslot := s_sslot s; s_creg := s_creg s;
-     s_cfree := s_cfree s; s_sreg := s_sreg s; s_clients := s_clients s; s_servers := s_servers s; s_conns := s_conns s;
+     s_sreg := s_sreg s; s_clients := s_clients s; s_servers := s_servers s; s_conns := s_conns s;
      s_loans := lo; s_pends := pe; s_acts := ac; s_resps := re; s_rloans := rl;
      s_rlog := s_rlog s; s_slog := s_slog s; s_idxlog := s_idxlog s |}.
 Definition st_loans s x := st_objs s x (s_pends s) (s_acts s) (s_resps s) (s_rloans s).
@@ -144,14 +144,14 @@ Definition st_pends s x := st_objs s (s_loans s) x (s_acts s) (s_resps s) (s_rlo
 Definition st_acts s x := st_objs s (s_loans s) (s_pends s) x (s_resps s) (s_rloans s).
 Definition st_resps s x := st_objs s (s_loans s) (s_pends s) (s_acts s) x (s_rloans s).
 Definition st_rloans s x := st_objs s (s_loans s) (s_pends s) (s_acts s) (s_resps s) x.
-Definition st_reg (s : state) (cslot sslot : list (option N)) (creg : list (option N)) (cfree : list N) (sreg : list N) (idxlog : list (N * N)) : state :=
+Definition st_reg (s : state) (cslot sslot : list (option N)) (creg : list (option N)) (sreg : list N) (idxlog : list (N * N)) : state :=
   {| s_next := s_next s; s_hid := s_hid s; s_cslot := cslot; s_sslot := sslot; s_creg := creg;
-     s_cfree := cfree; s_sreg := sreg; s_clients := s_clients s; s_servers := s_servers s; s_conns := s_conns s;
+     s_sreg := sreg; s_clients := s_clients s; s_servers := s_servers s; s_conns := s_conns s;
      s_loans := s_loans s; s_pends := s_pends s; s_acts := s_acts s; s_resps := s_resps s; s_rloans := s_rloans s;
      s_rlog := s_rlog s; s_slog := s_slog s; s_idxlog := idxlog |}.
 Definition st_logs (s : state) (rl : list (pendrec * rspmsg)) (sl : list (N * reqmsg)) : state :=
   {| s_next := s_next s; s_hid := s_hid s; s_cslot := s_cslot s; s_sslot := s_sslot s; s_creg := s_creg s;
-     s_cfree := s_cfree s; s_sreg := s_sreg s; s_clients := s_clients s; s_servers := s_servers s; s_conns := s_conns s;
+     s_sreg := s_sreg s; s_clients := s_clients s; s_servers := s_servers s; s_conns := s_conns s;
      s_loans := s_loans s; s_pends := s_pends s; s_acts := s_acts s; s_resps := s_resps s; s_rloans := s_rloans s;
      s_rlog := rl; s_slog := sl; s_idxlog := s_idxlog s |}.
 
@@ -166,6 +166,12 @@ Fixpoint remove_nth {A} (n : nat) (l : list A) : list A :=
   end.
 Fixpoint memN (x : N) (l : list N) : bool :=
   match l with [] => false | h :: t => N.eqb h x || memN x t end.
+Fixpoint first_free (l : list (option N)) (i : N) : option N :=
+  match l with
+  | [] => None
+  | None :: _ => Some i
+  | Some _ :: t => first_free t (i + 1)
+  end.
 Fixpoint index_of (x : N) (l : list (option N)) (i : N) : option N :=
   match l with
   | [] => None
@@ -302,14 +308,14 @@ Definition gc_client (s : state) (c : client) : state :=
   let s := upd_conns_of_client s cl (fun k => k_with_cv k VNone) in
   match index_of cl (s_creg s) 0 with
   | None => s
-  | Some i => st_reg s (s_cslot s) (s_sslot s) (updN (s_creg s) i None) (i :: s_cfree s) (s_sreg s) (s_idxlog s)
+  | Some i => st_reg s (s_cslot s) (s_sslot s) (updN (s_creg s) i None) (s_sreg s) (s_idxlog s)
   end.
 Definition gc_server (s : state) (c : server) : state :=
   if sv_obj c || server_refs s (sv_inst c) then s else
   let sv := sv_inst c in
   let s := st_servers s (filter (fun x => negb (N.eqb (sv_inst x) sv)) (s_servers s)) in
   let s := st_conns s (map (fun k => if N.eqb (k_sv k) sv then k_with_svw k VNone else k) (s_conns s)) in
-  st_reg s (s_cslot s) (s_sslot s) (s_creg s) (s_cfree s) (filter (fun x => negb (N.eqb x sv)) (s_sreg s)) (s_idxlog s).
+  st_reg s (s_cslot s) (s_sslot s) (s_creg s) (filter (fun x => negb (N.eqb x sv)) (s_sreg s)) (s_idxlog s).
 Definition gc (s : state) : state :=
   let s := fold_left gc_client (s_clients s) s in
   fold_left gc_server (s_servers s) s.
@@ -354,19 +360,20 @@ Inductive op :=
 | As (a : N) | Al (a : N) | Aw | Ax | Ad (a : N).
 
 (* --- client operations ------------------------------------------------------------------------- *)
-(* Client::new: force_update_connections, then add_client_id (index from the LIFO free list) *)
+(* Client::new: force_update_connections, then add_client_id (mpmc::Container over a
+   RobustUniqueIndexSet: the lowest free index) *)
 Definition client_create (g : cfg) (s : state) (slot : N) : state * obs :=
   match nthN (s_cslot s) slot None with
   | Some _ => (s, ONone)
   | None =>
-    match s_cfree s with
-    | [] => (s, OErr EMaxClients)
-    | i :: fr =>
+    match first_free (s_creg s) 0 with
+    | None => (s, OErr EMaxClients)
+    | Some i =>
       let '(inst, s) := fresh s in
       let c := mk_client inst true (map N.of_nat (seq 0 (N.to_nat (nreq g)))) 0 0 0 0 [] in
       let s := st_clients s (s_clients s ++ [c]) in
       let s := client_sync g s inst in
-      (st_reg s (updN (s_cslot s) slot (Some inst)) (s_sslot s) (updN (s_creg s) i (Some inst)) fr (s_sreg s)
+      (st_reg s (updN (s_cslot s) slot (Some inst)) (s_sslot s) (updN (s_creg s) i (Some inst)) (s_sreg s)
               (s_idxlog s ++ [(inst, i)]), OOk)
     end
   end.
@@ -375,7 +382,7 @@ Definition client_drop (s : state) (slot : N) : state * obs :=
   | None => (s, ONone)
   | Some inst =>
     let s := upd_client s inst (fun c => mk_client (cl_inst c) false (cl_avail c) (cl_ridc c) (cl_active c) (cl_loans c) (cl_sloans c) (cl_rc c)) in
-    (st_reg s (updN (s_cslot s) slot None) (s_sslot s) (s_creg s) (s_cfree s) (s_sreg s) (s_idxlog s), OOk)
+    (st_reg s (updN (s_cslot s) slot None) (s_sslot s) (s_creg s) (s_sreg s) (s_idxlog s), OOk)
   end.
 
 (* Client::loan_chunk *)
@@ -543,14 +550,14 @@ Definition server_create (g : cfg) (s : state) (slot : N) : state * obs :=
     let c := mk_server inst true 0 [] (repeat None (N.to_nat (MC g))) in
     let s := st_servers s (s_servers s ++ [c]) in
     let s := server_sync g s inst in
-    (st_reg s (s_cslot s) (updN (s_sslot s) slot (Some inst)) (s_creg s) (s_cfree s) (s_sreg s ++ [inst]) (s_idxlog s), OOk)
+    (st_reg s (s_cslot s) (updN (s_sslot s) slot (Some inst)) (s_creg s) (s_sreg s ++ [inst]) (s_idxlog s), OOk)
   end.
 Definition server_drop (s : state) (slot : N) : state * obs :=
   match nthN (s_sslot s) slot None with
   | None => (s, ONone)
   | Some inst =>
     let s := upd_server s inst (fun c => mk_server (sv_inst c) false (sv_sloans c) (sv_rc c) (sv_conns c)) in
-    (st_reg s (s_cslot s) (updN (s_sslot s) slot None) (s_creg s) (s_cfree s) (s_sreg s) (s_idxlog s), OOk)
+    (st_reg s (s_cslot s) (updN (s_sslot s) slot None) (s_creg s) (s_sreg s) (s_idxlog s), OOk)
   end.
 
 (* the connection an ActiveRequest / ResponseMut addresses: response_sender.connections[connection_id] *)
